@@ -58,7 +58,7 @@ func directedHistories() map[string]History {
 	g2.Tokens = []int64{5_000_000, 20_000_000}
 	out["P8-remove-last-bonded"] = History{g2, cat(empty(1, 1), jail0, []BlockSpec{blk(tx(rm(adminID, 1)))}, empty(2, 1))}
 	out["P12-duplicate-applications"] = History{g3, cat(empty(1, 1), []BlockSpec{blk(tx(createMsg(3, 3))), blk(tx(createMsg(3, 3))), blk(tx(createMsg(4, 3))),
-		blk(tx(sp(adminID, 3, 2*M, true))), blk(tx(sp(adminID, 4, 2*M, true)))}, empty(3, 1))}
+		blk(tx(sp(adminID, 3, 2*M, true))), blk(tx(sp(adminID, 4, 2*M, true)))}, empty(2, 1), []BlockSpec{blk(tx(rm(adminID, 3)))}, empty(3, 1))}
 	out["P12b-application-with-active-key"] = History{g3, cat(empty(1, 1), []BlockSpec{blk(tx(createMsg(3, 0))), blk(tx(createMsg(0, 5)))}, empty(2, 1))}
 	badp := paramTuple{Unbonding: int64(30e9), MaxVals: 0, MaxEntries: 7, Hist: 10000, Denom: "stake", MinComm: bigFromStr("0")}
 	out["P13-max-validators-zero"] = History{g3, cat(empty(1, 1), []BlockSpec{blk(tx(MsgSpec{Kind: "params", Sender: adminID, Params: &badp}))}, empty(3, 1))}
@@ -132,6 +132,17 @@ func directedHistories() map[string]History {
 	gd := defaultGenesis()
 	gd.Denom = "upoa"
 	out["S20-custom-bond-denom"] = History{gd, cat(empty(2, 1), []BlockSpec{blk(tx(sp(adminID, 0, 12*M, false))), blk(tx(sp(adminID, 0, 11*M, false))), blk(tx(createMsg(3, 3))), blk(tx(sp(adminID, 3, 2*M, true))), blk(tx(rm(adminID, 1)))}, empty(3, 1))}
+	// two SetPower of one validator in a block that differ in the amount but not in the power
+	out["S21-same-power-twice-other-amount"] = History{g3, cat(empty(2, 1), []BlockSpec{blk(tx(sp(adminID, 0, 14*M, true)), tx(sp(adminID, 0, 14*M+500_000, true)))}, empty(2, 1),
+		[]BlockSpec{blk(tx(sp(adminID, 1, 9*M, true)), tx(sp(adminID, 1, 9*M+1, true)))}, empty(2, 1))}
+	// two applications with one consensus key filed in one block, both admitted in one block
+	out["S22-shared-key-admitted-together"] = History{g3, cat(empty(1, 1), []BlockSpec{blk(tx(createMsg(3, 3)), tx(createMsg(4, 3))), blk(tx(sp(adminID, 3, 2*M, true)), tx(sp(adminID, 4, 3*M, true)))}, empty(3, 1))}
+	// ... and: the first admitted and jailed for downtime, then the second admitted (the jailed key must stay out)
+	out["S23-shared-key-second-admitted-after-jailing"] = History{gj, cat(empty(1, 1), []BlockSpec{blk(tx(createMsg(4, 4)), tx(createMsg(5, 4))), blk(tx(sp(adminID, 4, 5*M, true)))}, empty(2, 1),
+		[]BlockSpec{{Dt: 1, Absent: []int{4}}, {Dt: 1, Absent: []int{4}}, {Dt: 1, Absent: []int{4}}, {Dt: 1, Absent: []int{4}}, {Dt: 1, Absent: []int{4}}, {Dt: 1, Absent: []int{4}}},
+		[]BlockSpec{blk(tx(sp(adminID, 5, 6*M, true)))}, empty(3, 1))}
+	// an admission corrected within the same unit of power in the same block
+	out["S24-admission-corrected-within-a-power-unit"] = History{g3, cat(empty(1, 1), []BlockSpec{blk(tx(createMsg(3, 3))), blk(tx(sp(adminID, 3, 5*M, true)), tx(sp(adminID, 3, 5*M+400_000, true)))}, empty(3, 1))}
 	upCreate := createMsg(3, 4)
 	upCreate.Upper = true
 	upSp := sp(adminID, 3, 2*M, true)
